@@ -30,6 +30,7 @@ func vcRunScript(mode string, record string) string {
 		"  ok) echo '{\"name\":\"m\",\"action\":\"set\",\"value\":1}' > $METRICS_PATH ;;\n" +
 		"  exit3) echo '{\"name\":\"m\",\"action\":\"set\",\"value\":1}' > $METRICS_PATH ; exit 3 ;;\n" +
 		"  bad-metrics) echo 'garbage{' > $METRICS_PATH ;;\n" +
+		"  stray-closer) echo '{\"name\":\"m\",\"action\":\"set\",\"value\":1}}' > $METRICS_PATH ;;\n" +
 		"  bad-admission) echo '{\"allowed\":tr' > $VALIDATING_RESPONSE_PATH ;;\n" +
 		"  bad-conversion) echo '{\"convertedObjects\": 5' > $CONVERSION_RESPONSE_PATH ;;\n" +
 		"  rm-context) rm -f \"$BINDING_CONTEXT_PATH\" ;;\n" +
@@ -69,7 +70,7 @@ func TestVerifConfHookRunFiles(t *testing.T) {
 		}
 		return out
 	}
-	for _, mode := range []string{"ok", "exit3", "bad-metrics", "bad-admission", "bad-conversion", "rm-context", "rm-metrics", "mv-conversion"} {
+	for _, mode := range []string{"ok", "exit3", "bad-metrics", "stray-closer", "bad-admission", "bad-conversion", "rm-context", "rm-metrics", "mv-conversion"} {
 		for _, n := range []int{1, 3} {
 			evaluated++
 			hooksDir := t.TempDir()
@@ -141,7 +142,7 @@ func TestVerifConfHookRunFiles(t *testing.T) {
 			report("run-temp-files-left-after-failed-preparation", fmt.Sprintf("hook name of %d characters: preparing the admission response file failed (%v) and the files prepared before it stay in the temporary directory: %v", len(name), firstLine(err.Error()), short))
 		}
 	}
-	fmt.Printf("CONF-STATS evaluated=%d scope=real Hook.Run with a real process: 8 outcomes (ok, exit 3, malformed metrics / admission / conversion output, the hook removes its own context / metrics / conversion file) x 1 and 3 contexts, with the six contract variables already set in the operator's own environment: working directory, 6 environment variables -> the files of this execution (outputs empty), binding context file content, outcome, temporary directory empty afterwards; one execution whose third preparation step fails (file name too long)\n", evaluated)
+	fmt.Printf("CONF-STATS evaluated=%d scope=real Hook.Run with a real process: 9 outcomes (ok, exit 3, malformed metrics, a stray closing brace after a valid metric / admission / conversion output, the hook removes its own context / metrics / conversion file) x 1 and 3 contexts, with the six contract variables already set in the operator's own environment: working directory, 6 environment variables -> the files of this execution (outputs empty), binding context file content, outcome, temporary directory empty afterwards; one execution whose third preparation step fails (file name too long)\n", evaluated)
 }
 
 func firstLine(s string) string {
